@@ -11,7 +11,11 @@
 //!  graphN     : random digraphs on 2–8 transactions (G(n,p), rings up to length 8, DAGs, DAG + one
 //!               back edge, two rings with one-way bridges), same oracle.
 //!  graph-prog : random programs of add_wait / remove_wait / remove_transaction / clear /
-//!               cleanup_stale_edges(1 h) over <= 8 transactions with the oracle after every step.
+//!               cleanup_stale_edges over <= 8 transactions with the oracle (forward view
+//!               waiting_for, reverse view waiting_on, transaction_count bounds, detection) after
+//!               every step. One case in three really ages waits (TTL 4 ms, naps of 6 ms): an expiry
+//!               may drop only relations that involve a transaction not provably younger than the
+//!               TTL, the reference continues from the forward view and the reverse view must agree.
 //!  locks-seq  : sequential model-based programs over 4–8 keys and up to 5 live transactions:
 //!               try_lock, try_lock_with_wait_tracking, release, release_by_handle(_with_wait_
 //!               cleanup), cleanup_expired(_with_wait_cleanup), to_serializable/from_serializable
@@ -31,7 +35,10 @@
 //!               table key -> grantee judges every vote (held key => conflict naming a holder) and
 //!               every key's holder after every step; after every completion (commit / abort /
 //!               timeout) the transaction must hold no lock and be absent, as waiter and as holder,
-//!               from the coordinator's wait-for graph.
+//!               from the coordinator's wait-for graph. The same holds for every pending, not
+//!               Committing transaction whose deadline had passed for certain when a
+//!               cleanup_timeouts sweep ran (e.g. one left Aborting by mixed votes that nobody
+//!               aborts), whether or not the sweep lists it.
 //!  threads    : 2–6 OS threads run transaction life cycles over 4–8 keys on one LockManager (+ one
 //!               WaitForGraph), long timeouts; a shadow owner table is written *after* a grant and
 //!               cleared *before* a release, so a shadow overlap implies a real overlap. A sweeper
@@ -512,15 +519,25 @@ fn graph_prog_inner(case_seed: u64, r: &mut Report) -> Result<(u64, usize), Fail
     let mut e = Edges::new();
     let steps = 8 + rng.below(50);
     let mut trace: Vec<String> = Vec::new();
+    // one case in three lets wait edges really age past a small TTL (naps of 6 ms, TTL 4 ms).
+    // `first_wait[tx]` = harness clock before the earliest add_wait(tx, _) since tx was last
+    // removed for certain (remove_transaction / clear): the graph's own wait-start stamp of tx is
+    // never older than that, so "t - first_wait <= ttl" proves tx is not stale.
+    let timed = rng.chance(1, 3);
+    let ttl: u64 = if timed { 4 } else { 3_600_000 };
+    let mut first_wait: BTreeMap<u64, u64> = BTreeMap::new();
+    let mut naps = 0;
     for _ in 0..steps {
         let a = nodes[rng.below(n)];
         let b = nodes[rng.below(n)];
-        match rng.weighted(&[50, 14, 14, 2, 3]) {
+        match rng.weighted(&[50, 14, 14, 2, if timed { 8 } else { 3 }, if timed { 5 } else { 0 }]) {
             0 => {
                 let p = if rng.bool() { Some(rng.below(9) as u32) } else { None };
+                let before = now_ms();
                 g.add_wait(a, b, p);
                 if a != b {
                     e.insert((a, b));
+                    first_wait.entry(a).or_insert(before);
                 }
                 trace.push(format!("add_wait({},{})", a, b));
                 r.count("graph_op[add_wait]", 1);
@@ -534,28 +551,75 @@ fn graph_prog_inner(case_seed: u64, r: &mut Report) -> Result<(u64, usize), Fail
             2 => {
                 g.remove_transaction(a);
                 e.retain(|&(x, y)| x != a && y != a);
+                first_wait.remove(&a);
                 trace.push(format!("remove_transaction({})", a));
                 r.count("graph_op[remove_transaction]", 1);
                 // the statement's clause, literally: neither waiter nor holder any more
                 if !g.waiting_for(a).is_empty() || !g.waiting_on(a).is_empty() || nodes.iter().any(|&u| g.waiting_for(u).contains(&a) || g.waiting_on(u).contains(&a)) {
                     return fail(
                         "graph:removed-transaction-still-in-wait-graph",
-                        format!("after {:?}: tx {} still waiter/holder: waiting_for {:?} waiting_on {:?}", trace, a, g.waiting_for(a), g.waiting_on(a)),
+                        format!("after {:?}: tx {} still waiter/holder: waiting_for {:?} waiting_on {:?}; named by {:?}", trace, a, g.waiting_for(a), g.waiting_on(a), nodes.iter().filter(|&&u| g.waiting_for(u).contains(&a) || g.waiting_on(u).contains(&a)).collect::<Vec<_>>()),
                     );
                 }
             }
             3 => {
                 g.clear();
                 e.clear();
+                first_wait.clear();
                 trace.push("clear".into());
                 r.count("graph_op[clear]", 1);
             }
-            _ => {
-                // nothing recorded in this program is an hour old
-                let _ = g.cleanup_stale_edges(3_600_000);
-                trace.push("cleanup_stale_edges(1h)".into());
+            4 => {
+                // expiry of stale waits. Which relations an expiry drops is the graph's business
+                // (the statement is silent), within two limits: nothing appears, and nothing that
+                // involves only transactions provably younger than the TTL disappears. The
+                // reference then continues from the forward view the graph reports; the reverse
+                // view and the detector are judged against it below.
+                let removed_n = g.cleanup_stale_edges(ttl);
+                let t1 = now_ms();
+                let maybe_stale: BTreeSet<u64> = first_wait.iter().filter(|(_, &s0)| t1.saturating_sub(s0) > ttl).map(|(t, _)| *t).collect();
+                let mut now_e = Edges::new();
+                for &u in &nodes {
+                    for v in g.waiting_for(u) {
+                        now_e.insert((u, v));
+                    }
+                }
+                trace.push(format!("cleanup_stale_edges({} ms) -> {}", ttl, removed_n));
                 r.count("graph_op[cleanup_stale_edges]", 1);
+                if let Some(x) = now_e.iter().find(|x| !e.contains(x)) {
+                    return fail("cleanup_stale_edges:wait-edge-appeared", format!("after {:?}: {}->{} reported but never recorded; recorded {}", trace, x.0, x.1, edges_json(&e)));
+                }
+                let gone: Vec<(u64, u64)> = e.iter().filter(|x| !now_e.contains(x)).copied().collect();
+                if let Some(x) = gone.iter().find(|(a, b)| !maybe_stale.contains(a) && !maybe_stale.contains(b)) {
+                    return fail(
+                        "cleanup_stale_edges:removed-wait-younger-than-ttl",
+                        format!("after {:?}: {}->{} dropped although both transactions started waiting at most {} ms ago (ttl {} ms)", trace, x.0, x.1, t1.saturating_sub(first_wait.get(&x.0).copied().unwrap_or(t1)), ttl),
+                    );
+                }
+                if !gone.is_empty() {
+                    r.count("stale_sweeps_that_dropped_edges", 1);
+                    r.count("wait_edges_dropped_as_stale", gone.len() as u64);
+                }
+                e = now_e;
             }
+            _ => {
+                if naps < 4 {
+                    naps += 1;
+                    std::thread::sleep(Duration::from_millis(6));
+                    trace.push("nap 6 ms".into());
+                }
+            }
+        }
+        // transaction_count counts map entries, also empty ones (a waiter whose holder was removed
+        // keeps an empty entry on the unchanged tree), so only bounds are sound: every transaction
+        // with a recorded edge is counted, and nothing outside this program's transactions is
+        let tc = g.transaction_count();
+        let touching: BTreeSet<u64> = e.iter().flat_map(|&(x, y)| [x, y]).collect();
+        if tc < touching.len() || tc > n {
+            return fail(
+                "graph:transaction_count-outside-bounds",
+                format!("after {:?}: transaction_count = {}, transactions with a recorded edge {}, transactions in the program {}", trace, tc, touching.len(), n),
+            );
         }
         let res = check_graph(g, &nodes, &e, r).and_then(|_| if use_det { check_detector(&det, &nodes, &e, POLICIES[which].0, r) } else { Ok(()) });
         if let Err(f) = res {
@@ -1192,6 +1256,8 @@ struct CTx {
     id: u64,
     shards: Vec<usize>,
     voted: BTreeSet<usize>,
+    /// harness clock after `begin` returned: the coordinator's start stamp is not younger
+    begun_by: u64,
 }
 
 fn coord_inner(case_seed: u64, r: &mut Report) -> Result<(u64, bool), Fail> {
@@ -1202,7 +1268,8 @@ fn coord_inner(case_seed: u64, r: &mut Report) -> Result<(u64, bool), Fail> {
     // ones cleanup_timeouts lists)
     let timeout_mode = rng.weighted(&[3, 2, 2]);
     let sweep_times_out = timeout_mode == 1;
-    let cfg = DistributedTxConfig { prepare_timeout_ms: [3_600_000, 0, 20][timeout_mode], ..DistributedTxConfig::default() };
+    let prepare_timeout_ms: u64 = [3_600_000, 0, 20][timeout_mode];
+    let cfg = DistributedTxConfig { prepare_timeout_ms, ..DistributedTxConfig::default() };
     let mut naps = 0;
     let coord = DistributedTxCoordinator::new(ConsensusManager::default_config(), cfg);
     let parts: Vec<TxParticipant> = vec![TxParticipant::new_in_memory(), TxParticipant::new_in_memory()];
@@ -1266,7 +1333,7 @@ fn coord_inner(case_seed: u64, r: &mut Report) -> Result<(u64, bool), Fail> {
                 Ok(t) => {
                     trace.push(format!("begin -> tx{} shards {:?}", t.tx_id, shards));
                     all_ids.push(t.tx_id);
-                    txs.push(CTx { id: t.tx_id, shards, voted: BTreeSet::new() });
+                    txs.push(CTx { id: t.tx_id, shards, voted: BTreeSet::new(), begun_by: now_ms() });
                     r.count("coord_op[begin]", 1);
                 }
                 Err(e) => trace.push(format!("begin -> Err({})", e)),
@@ -1472,16 +1539,40 @@ fn coord_inner(case_seed: u64, r: &mut Report) -> Result<(u64, bool), Fail> {
                             continue;
                         }
                     }
+                    // transactions whose deadline has passed for certain when the sweep starts
+                    // (the coordinator's own test is now - started_at > timeout, with started_at <=
+                    // begun_by and now >= t0), with the phase they are in
+                    let t0 = now_ms();
+                    let overdue: Vec<(u64, Option<TxPhase>)> =
+                        txs.iter().filter(|x| t0.saturating_sub(x.begun_by) > prepare_timeout_ms).map(|x| (x.id, coord.get(x.id).map(|t| t.phase))).collect();
+                    for (t, ph) in &overdue {
+                        r.count(&format!("coord_overdue_at_sweep[{:?}]", ph.unwrap_or(TxPhase::Aborted)), 1);
+                        if *ph == Some(TxPhase::Aborting) && held.values().any(|o| o == t) {
+                            r.count("coord_overdue_aborting_with_yes_lock", 1);
+                        }
+                    }
                     let gone = coord.cleanup_timeouts();
                     trace.push(format!("cleanup_timeouts -> {:?}", gone));
                     r.count("coord_op[cleanup_timeouts]", 1);
-                    for t in gone {
+                    for &t in &gone {
                         txs.retain(|x| x.id != t);
                         held.retain(|_, o| *o != t);
                         completions += 1;
                         for p in &parts {
                             let _ = p.abort(t);
                         }
+                        completed(t, "timeout", &all_ids, &trace, &mut soft, r)?;
+                    }
+                    // a transaction has timed out when its deadline has passed and the sweep has
+                    // run, whether or not the sweep announces it: none of its locks may remain and
+                    // it may not be left in the wait-for graph. (A Committing transaction is decided
+                    // and is deliberately not subject to the deadline.)
+                    for (t, ph) in overdue {
+                        if gone.contains(&t) || ph == Some(TxPhase::Committing) || ph.is_none() {
+                            continue;
+                        }
+                        r.count("coord_overdue_not_announced", 1);
+                        trace.push(format!("(tx{} was {:?} and past its {} ms deadline, not listed by the sweep)", t, ph, prepare_timeout_ms));
                         completed(t, "timeout", &all_ids, &trace, &mut soft, r)?;
                     }
                 }
@@ -2053,6 +2144,7 @@ fn main() {
         if want("graph-prog") {
             floors.push(("graph_programs", 300));
             floors.push(("graph_op[remove_transaction]", 500));
+            floors.push(("stale_sweeps_that_dropped_edges", 100));
         }
         if want("locks-seq") {
             floors.push(("lock_programs", 1_000));
@@ -2067,6 +2159,7 @@ fn main() {
             floors.push(("coord_programs", 500));
             floors.push(("coord_conflict_votes", 200));
             floors.push(("coord_semantic_refusals", 30));
+            floors.push(("coord_overdue_aborting_with_yes_lock", 20));
             floors.push(("coord_op[remote_prepare]", 500));
             floors.push(("coord_completions[commit]", 100));
             floors.push(("coord_completions[abort]", 300));
